@@ -7,6 +7,12 @@ streams (component level: the real classes are called in-process; document level
   verb    : `verb.invoke` + `verb.digest` on  [*] delimiter body delimiter rest, every printable delimiter
   verbdoc : the same in a whole document
   verbraw : arbitrary input after \\verb: implementation vs model
+  vdocp / verbdocp : the same inside a complete document that goes through the ordinary paragraph pipeline
+            (\\documentclass, paragraph breaks: `paragraphs()` normalises with the document's character substitutions), where
+            the surrounding text must get its ligatures and the verbatim text must not
+  nsub    : `node.normalize(document.charsubs)` called on a node of each verbatim / math class (and on ordinary classes as a
+            control) holding ligature sources, directly or one element deeper: text afterwards vs the C07 normalisation model
+            with the class's `nosub` flag from the regenerated table Generated/NoCharsub.lean
   mgrp    : the text of a brace group inside $ $ after digestion (digest-time normalisation): repaired / as-is variant (D17)
   msrc    : formulas of the math grammar (depth <= 4) in $ $, \\( \\), \\[ \\], $$ $$, equation and inside text
             arguments, partly written with user macros: `math_node.source` (and `mathjax_source`) vs the model string,
@@ -48,7 +54,49 @@ CASE_TIMEOUT = 20
 
 logging.disable(logging.CRITICAL)
 
-GENERATED = []
+NOSUB_CLASSES = ['verb', 'verbatim', 'verbatim*', 'math', 'displaymath', 'equation', 'eqnarray', 'eqnarray*']   # must suppress
+CONTROL_CLASSES = ['textbf', 'emph', 'bgroup', 'mbox', 'par']                                                   # ordinary classes
+PROBE_TEXT = "a--b''c`d'e---f``g"
+
+
+def normalize_probe(cls, text, nested=False):
+    """text below a fresh node of class `cls` after `node.normalize(document.charsubs)`"""
+    from plasTeX import TeXDocument
+    from plasTeX.Tokenizer import Other, Letter
+    doc = TeXDocument()
+    node = doc.createElement(cls)
+    holder = node
+    if nested:
+        holder = doc.createElement('bgroup')
+        node.appendChild(holder)
+    for ch in text:
+        holder.appendChild(Letter(ch) if ch.isalpha() and ch.isascii() else Other(ch))
+    node.normalize(doc.charsubs)
+    return node.textContent
+
+
+def gen_nosub():
+    import extract
+    rows = []
+    for cls in NOSUB_CLASSES + CONTROL_CLASSES:
+        out = normalize_probe(cls, PROBE_TEXT)
+        from plasTeX import TeXDocument
+        if out == PROBE_TEXT:
+            flag = 'true'
+        else:
+            flag = 'false'
+        if not all(c.isalnum() or c == '*' for c in cls):
+            raise ValueError(cls)
+        rows.append('("%s", %s)' % (cls, flag))
+    src = (extract.HEADER % ('plasTeX (normalize() of the verbatim / math classes, probed with %r and document.charsubs)' % PROBE_TEXT, 'probed') +
+           'namespace PlasVerif.Generated.NoCharsub\n'
+           '/-- class name -> `normalize(charsubs)` leaves the probe text unchanged (the class drops the substitution list) -/\n'
+           'def nosubClasses : List (String × Bool) := [' + ', '.join(rows) + ']\n'
+           'end PlasVerif.Generated.NoCharsub\n')
+    return 'PlasVerif/Generated/NoCharsub.lean', src, 'probed'
+
+
+GENERATED = [gen_nosub]
 
 # ---------------------------------------------------------------- helpers
 
@@ -69,7 +117,8 @@ PRINTABLE = ''.join(chr(i) for i in range(32, 127))
 SPECIALS = '\\{}%$&#^_~ \n\t'
 PARTIAL_MARKERS = ['\\end', '\\end{', '\\end{verb', '\\end{verbatim', '\\endverbatim', 'end{verbatim}', '\\end {verbatim}',
                    '\\end{verbatim*', '\\begin{verbatim}', '\\\\end{verbatim', '\\en', '\\']
-SNIPPETS = ['^^M', '^^41', '^^', '^^?', '%% not a comment', '% x\n', '---', '--', "''", '``', '!`', '?`', '<<', '>>', '  ', '    ', '\n\n',
+LIG_SOURCES = ['--', '---', '``', "''", "'", '`', '!`', '?`', '"`', '"\'', 'a--b', "it's", '<<', '>>', ',,']
+SNIPPETS = LIG_SOURCES + ['^^M', '^^41', '^^', '^^?', '%% not a comment', '% x\n', '---', '--', "''", '``', '!`', '?`', '<<', '>>', '  ', '    ', '\n\n',
             '\n \n', '\\par', '\\verb|x|', '{', '}', '{}', '\\\\', '$x^2$', '&', '#1', '~', '\t', '\\item', '\\section{x}', 'é', 'λ', 'ß']
 
 
@@ -347,6 +396,9 @@ CONTEXTS = {  # name -> (kind, template)
     'footnote': ('inline', 'T\\footnote{see $%s$.} U'),
     'section': ('inline', '\\section{On $%s$} U'),
 }
+# every context also inside a complete document whose paragraphs are normalised with the character substitutions
+for _k, (_kind, _t) in list(CONTEXTS.items()):
+    CONTEXTS[_k + '+par'] = (_kind, "\\documentclass{article}\\begin{document}\nO--o ``q''.\n\n" + _t + "\n\nE--e.\n\\end{document}\n")
 TAG = {'inline': 'math', 'display': 'displaymath', 'equation': 'equation'}
 
 
@@ -381,6 +433,13 @@ def generate(ctx):
         name = 'verbatim*' if rng.random() < 0.2 else 'verbatim'
         rest = rng.choice(list(DOC_RESTS))
         yield Case('vdoc', '1 %s %s %s' % (cps(name), cps(body), cps(rest)), {'kind': 'vdoc'})
+    for i in range(n_env // 4):     # the same in a complete document with paragraph breaks (character substitutions active around it)
+        body = gen_body(rng, 40)
+        if rng.random() < 0.5:
+            body += rng.choice(LIG_SOURCES) + gen_body(rng, 6)
+        name = 'verbatim*' if rng.random() < 0.2 else 'verbatim'
+        rest = rng.choice(list(DOC_RESTS))
+        yield Case('vdocp', '1 %s %s %s' % (cps(name), cps(body), cps(rest)), {'kind': 'vdocp'})
     for i in range(n_env // 6):     # malformed: no (complete) end marker
         inp = gen_body(rng, 40) + rng.choice(['', '\\end{verbatim', '\\end{verbati}', '\\endverbati', '\\end{verbatim*}x'])
         yield Case('venvraw', '1 %s %s' % (cps('verbatim'), cps(inp)), {'kind': 'venvraw'})
@@ -402,6 +461,19 @@ def generate(ctx):
                 body = 'x'      # `\\verb^^B`: the ^^ notation is decoded while the name `verb` is being scanned (as in TeX)
             rest = rng.choice(['B', ' after', 'Z\\emph{Q}'])
             yield Case('verbdoc', '%d %d %s %s' % (star, ord(d), cps(body), cps(rest)), {'kind': 'verbdoc'})
+    plain_delims = [d for d in delims if d not in LIG_CH + '!?<>,']
+    for i in range(150 if q else 3000):   # \\verb / \\verb* with ligature sources, in a document with paragraph breaks
+        d = rng.choice(plain_delims)
+        star = 1 if rng.random() < 0.3 else 0
+        close = '}' if d == '{' else d
+        body = (gen_body(rng, 10) + rng.choice(LIG_SOURCES) + gen_body(rng, 8) +
+                (rng.choice(LIG_SOURCES) if rng.random() < 0.4 else '')).replace('\n', ' ').replace(close, '')
+        rest = rng.choice(['B', ' after', 'Z\\emph{Q}'])
+        yield Case('verbdocp', '%d %d %s %s' % (star, ord(d), cps(body), cps(rest)), {'kind': 'verbdocp'})
+    for cls in NOSUB_CLASSES + CONTROL_CLASSES:
+        for i in range(6 if q else 80):
+            txt = ''.join(rng.choice(LIG_SOURCES + list('abc xyz.,')) for _ in range(rng.randint(1, 5)))
+            yield Case('nsub', '%s %d %s' % (cls, 1 if rng.random() < 0.3 else 0, cps(txt)), {'kind': 'nsub'})
     # starred with any delimiter including letters and `*`
     for d in 'a*Z ':
         yield Case('verb', '1 %d %s %s' % (ord(d), cps('x y'), cps('B')), {'kind': 'verb'})
@@ -418,7 +490,7 @@ def generate(ctx):
         depth = rng.randint(1, 4)
         seq = gen_seq(rng, depth, rng.randint(1, 4))
         cname = rng.choice(ctxs)
-        if cname == 'section' and any(it[0] == 'A' for it in seq):
+        if cname.startswith('section') and any(it[0] == 'A' for it in seq):
             cname = 'dollar'
         yield Case('msrc', '%s %s' % (CONTEXTS[cname][0], ' '.join(enc(seq))),
                    {'kind': 'msrc', 'ctx': cname, 'seed': rng.randrange(1 << 30), 'macros': rng.random() < 0.6})
@@ -442,6 +514,13 @@ def corpus():
         Case('verbdoc', '0 126 %s %s' % (cps('x \\y{z} % q'), cps('B')), {'kind': 'verbdoc'}, 'corpus'),
         Case('verb', '0 123 %s %s' % (cps('x|y'), cps('B')), {'kind': 'verb'}, 'corpus'),
         Case('verb', '1 43 %s %s' % (cps(' verbatim \\tt text '), cps(' bye')), {'kind': 'verb'}, 'corpus'),
+        # missed mutant c11a_2: character substitutions reaching \\verb content in a document with paragraph breaks
+        Case('verbdocp', '0 124 %s %s' % (cps('prog --help'), cps('B')), {'kind': 'verbdocp'}, 'corpus'),
+        Case('verbdocp', '1 43 %s %s' % (cps("``quoted'' it's a---b ?` !`"), cps(' after')), {'kind': 'verbdocp'}, 'corpus'),
+        Case('vdocp', '1 %s %s %s' % (v, cps("\nprog --help ``q'' a---b\n"), cps(' after')), {'kind': 'vdocp'}, 'corpus'),
+        Case('nsub', 'verb 0 %s' % cps("a--b''c"), {'kind': 'nsub'}, 'corpus'),
+        Case('nsub', 'math 1 %s' % cps("a--b''c"), {'kind': 'nsub'}, 'corpus'),
+        Case('nsub', 'textbf 0 %s' % cps("a--b''c"), {'kind': 'nsub'}, 'corpus'),
         # D15 witness: \endverbatim inside \begin{verbatim} ... \end{verbatim}
         Case('venv', '1 %s %s %s' % (v, cps('\na \\endverbatim b\n'), cps(' x')), {'kind': 'venv'}, 'corpus'),
         Case('vdoc', '1 %s %s %s' % (v, cps('\na \\endverbatim b\n'), cps(' after')), {'kind': 'vdoc'}, 'corpus'),
@@ -505,8 +584,30 @@ def impl_venv(begun, name, inp):
     return res_str(content, closed, unread(tex))
 
 
-def impl_vdoc(name, body, rest):
-    doc, tex = new_tex('P\\begin{%s}%s\\end{%s}%s' % (name, body, name, rest))
+PIPE = "\\documentclass{article}\\begin{document}\nOrdinary -- text.\n\n%s\n\nMore ``text''.\n\\end{document}\n"
+PIPE_PRE, PIPE_POST = ' Ordinary \u2013 text. ', ' More \u201ctext\u201d.'
+
+
+def split_pipe(whole, content, piped):
+    """the text after the verbatim node (`whole` = document text), or a MISPLACED/PIPELINE diagnosis"""
+    pre = (PIPE_PRE if piped else '') + 'P' + content
+    if not whole.startswith(pre):
+        if piped and not whole.startswith(PIPE_PRE):
+            return 'PIPELINE-INACTIVE:' + whole[:40]
+        return 'MISPLACED:' + whole
+    tail = whole[len(pre):]
+    if not piped:
+        return tail
+    t = tail.rstrip()
+    if not t.endswith(PIPE_POST.strip()):
+        return 'PIPELINE-TAIL:' + tail
+    t = t[:len(t) - len(PIPE_POST.strip())]
+    return t[:-1] if t.endswith(' ') else t
+
+
+def impl_vdoc(name, body, rest, piped=False):
+    text = 'P\\begin{%s}%s\\end{%s}%s' % (name, body, name, rest)
+    doc, tex = new_tex(PIPE % text if piped else text)
     tex.parse()
     nodes = doc.getElementsByTagName(name)
     if len(nodes) != 1:
@@ -514,9 +615,10 @@ def impl_vdoc(name, body, rest):
     node = nodes[0]
     whole = doc.textContent
     content = node.textContent
-    after = whole[1 + len(content):] if whole.startswith('P' + content) else 'MISPLACED:' + whole
+    after = split_pipe(whole, content, piped)
     exp_after, must = DOC_RESTS[rest]
-    ok = (after == exp_after) and (must is None or len(doc.getElementsByTagName(must)) >= 1)
+    ok = (after == exp_after or (piped and after.strip() == exp_after.strip() and not exp_after.strip())) \
+        and (must is None or len(doc.getElementsByTagName(must)) >= 1)
     return res_str(content, True, rest if ok else 'AFTER:' + after)
 
 
@@ -532,9 +634,10 @@ def impl_verb(inp):
     return '%s|%s' % ('true' if star else 'false', res_str(content, closed, unread(tex)))
 
 
-def impl_verbdoc(star, d, body, rest):
+def impl_verbdoc(star, d, body, rest, piped=False):
     close = '}' if d == '{' else d
-    doc, tex = new_tex('P\\verb%s%s%s%s%s' % ('*' if star else '', d, body, close, rest))
+    text = 'P\\verb%s%s%s%s%s' % ('*' if star else '', d, body, close, rest)
+    doc, tex = new_tex(PIPE % text if piped else text)
     tex.parse()
     nodes = doc.getElementsByTagName('verb')
     if len(nodes) != 1:
@@ -542,7 +645,7 @@ def impl_verbdoc(star, d, body, rest):
     node = nodes[0]
     content = node.textContent
     whole = doc.textContent
-    after = whole[1 + len(content):] if whole.startswith('P' + content) else 'MISPLACED:' + whole
+    after = split_pipe(whole, content, piped)
     exp_after = {'B': 'B', ' after': ' after', 'Z\\emph{Q}': 'ZQ'}[rest]
     return '%s|%s' % ('true' if node.attributes.get('*modifier*') else 'false',
                       res_str(content, True, rest if after == exp_after else 'AFTER:' + after))
@@ -594,15 +697,17 @@ def impl(case, aux):
             begun, name, body, rest = int(w[0]), uncps(w[1]), uncps(w[2]), uncps(w[3])
             esc_end = '\\end{%s}' % name if begun else '\\end%s' % name
             return impl_venv(begun, name, body + esc_end + rest)
-        if kind == 'vdoc':
-            return impl_vdoc(uncps(w[1]), uncps(w[2]), uncps(w[3]))
+        if kind in ('vdoc', 'vdocp'):
+            return impl_vdoc(uncps(w[1]), uncps(w[2]), uncps(w[3]), kind == 'vdocp')
+        if kind == 'nsub':
+            return cps0(normalize_probe(w[0], uncps(w[2]), w[1] == '1'))
         if kind == 'venvraw':
             return impl_venv(int(w[0]), uncps(w[1]), uncps(w[2]))
         if kind == 'verb':
             star, d, body, rest = int(w[0]), chr(int(w[1])), uncps(w[2]), uncps(w[3])
             return impl_verb(('*' if star else '') + d + body + ('}' if d == '{' else d) + rest)
-        if kind == 'verbdoc':
-            return impl_verbdoc(int(w[0]), chr(int(w[1])), uncps(w[2]), uncps(w[3]))
+        if kind in ('verbdoc', 'verbdocp'):
+            return impl_verbdoc(int(w[0]), chr(int(w[1])), uncps(w[2]), uncps(w[3]), kind == 'verbdocp')
         if kind == 'verbraw':
             return impl_verb(uncps(w[0]))
         if kind == 'msrc':
@@ -667,7 +772,7 @@ def judge(o):
         if o.corr_ok and o.impl != o.model:
             o.note = 'implementation follows the as-is variant (D17)'
         return
-    if st in ('vdoc', 'verbdoc') and o.spec == '-':
+    if st in ('vdoc', 'verbdoc', 'vdocp', 'verbdocp') and o.spec == '-':
         # the body contains the complete end marker / closing delimiter: outside the domain, and the document-level
         # observation (text after the node) is not modelled for it; the component streams compare such inputs
         o.corr_ok = o.prop_ok = True
@@ -683,10 +788,12 @@ def nontrivial(o):
     w = o.case.line.split()
     if st == 'msrc':
         return len(w) >= 8
-    if st in ('venv', 'vdoc'):
+    if st in ('venv', 'vdoc', 'vdocp'):
         return any(c in uncps(w[2]) for c in SPECIALS)
-    if st in ('verb', 'verbdoc'):
+    if st in ('verb', 'verbdoc', 'verbdocp'):
         return len(uncps(w[2])) > 0
+    if st == 'nsub':
+        return any(c in uncps(w[2]) for c in LIG_CH)
     if st == 'mgrp':
         return len(uncps(w[0])) > 1
     return False
@@ -756,7 +863,7 @@ def _valid(seq, intext=False):
 
 def shrink(ctx, o, evaluate):
     st = o.case.stream
-    if st in ('venv', 'vdoc', 'verb', 'verbdoc'):
+    if st in ('venv', 'vdoc', 'verb', 'verbdoc', 'vdocp', 'verbdocp', 'nsub'):
         return _shrink_str_case(o, evaluate, 2)
     if st != 'msrc':
         return o
@@ -860,6 +967,95 @@ def _html_check(seed, n):
     return bad, len(srcs)
 
 
+def _render_doc(source):
+    """parse and render a document with the HTML5 renderer; returns (doc, concatenated html)"""
+    import os, tempfile, shutil
+    from plasTeX.TeX import TeX
+    from plasTeX import TeXDocument
+    from plasTeX.Config import defaultConfig
+    from plasTeX.Renderers.HTML5 import Renderer
+    from plasTeX.Renderers.HTML5.Config import addConfig
+    config = defaultConfig()
+    addConfig(config)
+    config['images']['enabled'] = False
+    config['images']['vector-imager'] = 'none'
+    config['images']['imager'] = 'none'
+    config['files']['split-level'] = -100
+    d = tempfile.mkdtemp(prefix='c11html')
+    cwd = os.getcwd()
+    try:
+        os.chdir(d)
+        doc = TeXDocument(config=config)
+        tex = TeX(doc)
+        tex.input(source)
+        tex.parse()
+        Renderer().render(doc)
+        out = ''
+        for fn in sorted(os.listdir(d)):
+            if fn.endswith('.html'):
+                out += open(os.path.join(d, fn), encoding='utf-8').read()
+        return doc, out
+    finally:
+        os.chdir(cwd)
+        shutil.rmtree(d, ignore_errors=True)
+
+
+def _verb_html_case(seed, n):
+    """n verbatim items [(kind, delimiter-or-name, body)] with ligature sources, specials and repeated blanks"""
+    rng = random.Random(seed)
+    delims = [d for d in verb_delims() if d not in LIG_CH + '!?<>,']
+    items = [('verb', '|', 'prog --help'), ('verb*', '+', "``quoted'' it's a---b"), ('verb', '/', '?` and !`'),
+             ('verbatim', 'verbatim', "\nx -- y ``z'' <a> & b\n")]
+    while len(items) < n:
+        r = rng.random()
+        lig = rng.choice(LIG_SOURCES)
+        if r < 0.7:
+            d = rng.choice(delims)
+            close = '}' if d == '{' else d
+            body = (gen_body(rng, 8) + lig + gen_body(rng, 8)).replace('\n', ' ').replace(close, '')
+            items.append(('verb*' if rng.random() < 0.3 else 'verb', d, body))
+        else:
+            name = 'verbatim'      # the HTML5 renderer has no template for verbatim* (it falls back to running text): tree level only (vdocp)
+            body = '\n' + gen_body(rng, 20) + lig + gen_body(rng, 10) + '\n'
+            if '\\end{' + name + '}' in body:
+                continue
+            items.append((name, name, body))
+    return items
+
+
+def _verb_html_check(seed, n):
+    import re, html
+    items = _verb_html_case(seed, n)
+    paras = []
+    for kind, d, body in items:
+        if kind.startswith('verbatim'):
+            paras.append('Env:\\begin{%s}%s\\end{%s}' % (kind, body, kind))
+        else:
+            paras.append('Use \\verb%s%s%s%s here.' % ('*' if kind == 'verb*' else '', d, body, '}' if d == '{' else d))
+    src = ("\\documentclass{article}\\begin{document}\nOrdinary --- with ``quotes'' first.\n\n" + '\n\n'.join(paras) +
+           "\n\nOrdinary again -- it's normal.\n\\end{document}\n")
+    doc, page = _render_doc(src)
+    bad = []
+    vb = [b for k, d, b in items if k.startswith('verb') and not k.startswith('verbatim')]
+    eb = [b for k, d, b in items if k.startswith('verbatim')]
+    tree_v = [x.textContent for x in doc.getElementsByTagName('verb')]
+    tree_e = [x.textContent for x in doc.getElementsByTagName('verbatim') + doc.getElementsByTagName('verbatim*')]
+    if tree_v != vb:
+        bad.append('document tree: \\verb contents %r, written %r' % ([x for x in tree_v if x not in vb][:2], [x for x in vb if x not in tree_v][:2]))
+    if sorted(tree_e) != sorted(eb):
+        bad.append('document tree: verbatim contents %r, written %r' % ([x for x in tree_e if x not in eb][:2], [x for x in eb if x not in tree_e][:2]))
+    html_v = [html.unescape(x) for x in re.findall(r'<code class="verbatim">(.*?)</code>', page, re.S)]
+    html_e = [html.unescape(x) for x in re.findall(r'<pre class="verbatim">(.*?)</pre>', page, re.S)]
+    if html_v != vb:
+        bad.append('HTML: <code class="verbatim"> %r, written %r' % ([x for x in html_v if x not in vb][:2], [x for x in vb if x not in html_v][:2]))
+    if sorted(html_e) != sorted(eb):
+        bad.append('HTML: <pre class="verbatim"> %r, written %r' % ([x for x in html_e if x not in eb][:2], [x for x in eb if x not in html_e][:2]))
+    whole = doc.textContent
+    if '\u2014' not in whole or '\u201c' not in whole or 'it\u2019s normal' not in whole:
+        bad.append('the ordinary text around the verbatim items was not processed normally')
+    return bad, len(items), src
+
+
 def extra_checks(ctx):
     viol, stats = [], {'evaluations': 0, 'distinct_nontrivial': 0, 'samples': []}
     docs = 2 if ctx.tier == 'quick' else 12
@@ -875,10 +1071,30 @@ def extra_checks(ctx):
             viol.append(Violation('rendered \\( \\) payload differs from mathjax_source: ' + bad[0],
                                   {'kind': 'failing-input', 'extra': {'html_seed': seed, 'n': 25}, 'detail': bad[:3]}))
             break
+    # verbatim text in the document tree and in the rendered HTML5 page, in a document with paragraph breaks
+    for i in range(2 if ctx.tier == 'quick' else 12):
+        seed = ctx.rng.randrange(1 << 30)
+        try:
+            bad, n, src = _verb_html_check(seed, 16)
+        except Exception as e:
+            bad, n, src = ['parser/renderer raised %r' % e], 0, ''
+        stats['evaluations'] += n
+        stats['distinct_nontrivial'] += n
+        if bad:
+            viol.append(Violation('verbatim text is not reproduced exactly (document tree / rendered HTML): ' + bad[0],
+                                  {'kind': 'failing-input', 'extra': {'verb_html_seed': seed, 'n': 16}, 'detail': bad[:4],
+                                   'document': src}))
+            break
     return viol, stats
 
 
 def replay_extra(ctx, extra):
+    if 'verb_html_seed' in extra:
+        try:
+            bad, n, src = _verb_html_check(extra['verb_html_seed'], extra.get('n', 16))
+        except Exception:
+            return True
+        return bool(bad)
     try:
         bad, n = _html_check(extra['html_seed'], extra.get('n', 25))
     except Exception:
